@@ -241,6 +241,7 @@ def replay(f):
                 "C11.history_unchanged": same_history(S0, S1),
                 "C11.segmentation_unchanged": np.array_equal(S0["seg"], S1["seg"]),
                 "C11.no_refresh": len(emitted) == 0,
+                "C11.registry_unchanged": S0["feature_keys"] == S1["feature_keys"] and S0["counter"] == S1["counter"],
                 "C20.refused_emits_none": len(emitted) == 0,
                 "C20.signal_delivers_after_refusal": R._signal_delivers(tr, emitted),
             }
